@@ -199,6 +199,10 @@ impl Cx {
             o => h64(o.kind().as_bytes()),
         };
         self.end_call(t0, r.kind(), h, || case_json(html, w, cfg));
+        if self.samples.len() < 3 && self.evals % 977 == 1 {
+            let res: String = format!("{r:?}").chars().take(300).collect();
+            self.samples.push(json!({"api": "string_from_read", "html": String::from_utf8_lossy(html), "width": w, "config": cfg.short(), "result": res}));
+        }
         r
     }
     /// `lines_from_read` on the subject.
@@ -212,6 +216,10 @@ impl Cx {
             o => h64(o.kind().as_bytes()),
         };
         self.end_call(t0, r.kind(), h, || case_json(html, w, cfg));
+        if self.samples.len() < 3 && self.evals % 977 == 1 {
+            let res: String = format!("{r:?}").chars().take(300).collect();
+            self.samples.push(json!({"api": "lines_from_read", "html": String::from_utf8_lossy(html), "width": w, "config": cfg.short(), "result": res}));
+        }
         r
     }
     /// Any other subject call; `desc` describes it for crash attribution.
